@@ -1206,3 +1206,40 @@ mod test {
         assert!(reader_s.recv_view(|x| *x).is_ok());
     }
 }
+
+#[cfg(multiqueue2_verif)]
+mod verif_layout {
+    use super::*;
+    use crate::verif_hooks::Loc;
+
+    impl<T: Clone> BroadcastSender<T> {
+        pub fn verif_layout(&self) -> Vec<Loc> {
+            self.sender.verif_layout()
+        }
+    }
+    impl<T: Clone> BroadcastReceiver<T> {
+        pub fn verif_layout(&self) -> Vec<Loc> {
+            self.receiver.verif_layout()
+        }
+    }
+    impl<T: Clone + Sync> BroadcastUniReceiver<T> {
+        pub fn verif_layout(&self) -> Vec<Loc> {
+            self.receiver.verif_layout()
+        }
+    }
+    impl<T: Clone> BroadcastFutSender<T> {
+        pub fn verif_layout(&self) -> Vec<Loc> {
+            self.sender.verif_layout()
+        }
+    }
+    impl<T: Clone> BroadcastFutReceiver<T> {
+        pub fn verif_layout(&self) -> Vec<Loc> {
+            self.receiver.verif_layout()
+        }
+    }
+    impl<R, F: FnMut(&T) -> R, T: Clone + Sync> BroadcastFutUniReceiver<R, F, T> {
+        pub fn verif_layout(&self) -> Vec<Loc> {
+            self.receiver.verif_layout()
+        }
+    }
+}
